@@ -69,3 +69,14 @@ pub assume_specification<T, A> [std::vec::Vec::<T, A>::capacity] (v: &std::vec::
     where A: std::alloc::Allocator,
     ensures r >= v@.len();
 '''
+
+VECDEQUE_IS_EMPTY = r'''
+pub assume_specification<T, A> [std::collections::VecDeque::<T, A>::is_empty] (d: &std::collections::VecDeque<T, A>) -> (r: bool)
+    where A: std::alloc::Allocator,
+    ensures r == (d@.len() == 0);
+'''
+VECDEQUE_CLEAR = r'''
+pub assume_specification<T, A> [std::collections::VecDeque::<T, A>::clear] (d: &mut std::collections::VecDeque<T, A>)
+    where A: std::alloc::Allocator,
+    ensures final(d)@ =~= Seq::<T>::empty();
+'''
